@@ -253,6 +253,9 @@ func propSpecs() map[string]*PropSpec {
 		}
 		c10.Jobs = append(c10.Jobs, JobSpec{Pkg: pkgCM, Harness: "H_C10", Params: []int64{int64(2000 + i), 0}, Bound: fmt.Sprintf("attribute-emission template %d, FilterTag=nil", i), Tier: t})
 	}
+	for _, i := range []int64{26, 27} {
+		c10.Jobs = append(c10.Jobs, JobSpec{Pkg: pkgCM, Harness: "H_C10", Params: []int64{2000 + i, 5}, Bound: fmt.Sprintf("raw-HTML template %d (non-ASCII bytes in a tag name), FilterTag={b,script}", i), Tier: "quick"})
+	}
 	for _, f := range []int64{1, 2, 4, 5} {
 		for _, i := range []int64{14, 15, 16, 17, 24, 25} {
 			if i >= 16 && (f == 1 || f == 4) {
@@ -373,7 +376,7 @@ func propSpecs() map[string]*PropSpec {
 	cm(c14, "H_C14_pad", 0, 1, "padding clause, F(1) x 5 pads", "quick")
 	cm(c14, "H_C14_pad", 0, 2, "padding clause, F(2) x 5 pads", "quick")
 	cm(c14, "H_C14_pad", 0, 3, "padding clause, F(3) x 5 pads", "thorough")
-	for i := int64(0); i < 17; i++ {
+	for i := int64(0); i < 19; i++ {
 		if i != 10 && i != 11 { // templates 10 and 11 end in a line ending: outside the final-newline clause (twin: vacuous)
 			cm(c14, "H_C14_final", 4, i, fmt.Sprintf("final-newline clause, C14 template %d", i), "quick")
 		}
